@@ -55,6 +55,9 @@ KEYWORDS = set("""if while match for loop return let else fn impl where in as mo
     write writeln println print format vec panic""".split())
 
 
+PROBE_INFO = {}
+
+
 class TranslatorError(Exception):
     pass
 
@@ -387,6 +390,14 @@ def build():
             guards.append(f.qual)
     if "Runtime::check_stack" not in ids:
         raise TranslatorError("Runtime::check_stack not found in src/runtime.rs")
+    probe_ok, probe_why = probe_shape(by_qual["Runtime::check_stack"].body)
+    base_ok, base_why = stack_base_shape(by_qual)
+    if not (probe_ok and base_ok):
+        # a probe that does not always compare the stack distance with the budget (or a base that
+        # is not the stack pointer at run entry) guards nothing: no function counts as a guard
+        print("gen_stack.py: check_stack is not an unconditional probe (%s; %s): no function is treated as guarded"
+              % (probe_why, base_why))
+        guards = []
 
     # structural / jump classification of evaluator AST-entry call sites
     structural, jump = [], []
@@ -422,7 +433,112 @@ def build():
     budget = eval(expr, {"__builtins__": {}}, {"KIBI": 1024, "MEBI": 1024 * 1024, "GIBI": 1024 ** 3})
 
     data = [(q, q) for q in DATA if q in ids and q in edges[q] and q not in guards]
+    global PROBE_INFO
+    PROBE_INFO = {"probe_ok": probe_ok, "probe_why": probe_why, "base_ok": base_ok, "base_why": base_why,
+                  "arrays": stack_arrays(by_qual)}
     return fns, ids, edges, guards, structural, jump, budget, data
+
+
+def probe_shape(body):
+    """check_stack must be: take the address of a local, compare (stack_base - address) with
+    STACK_BUDGET in the ONLY `if`, return the error there (the ONLY `return`), otherwise Ok(()).
+    Any other early exit, second condition or loop makes the probe conditional."""
+    b = " ".join(body.split())
+    why = []
+    if len(re.findall(r"\bif\b", b)) != 1:
+        why.append("%d `if`s" % len(re.findall(r"\bif\b", b)))
+    if len(re.findall(r"\breturn\b", b)) != 1:
+        why.append("%d `return`s" % len(re.findall(r"\breturn\b", b)))
+    for kw in ("match", "while", "loop", "for", "else", "break", "continue"):
+        if re.search(r"\b%s\b" % kw, b):
+            why.append("`%s` in the probe" % kw)
+    if "?" in b or "&&" in b or "||" in b:
+        why.append("`?`/`&&`/`||` in the probe")
+    m = re.search(r"\bif\b(.*?)\{\s*return\s+Err\s*\(", b)
+    if not m:
+        why.append("the `if` does not return the error")
+    else:
+        cond = m.group(1)
+        if not re.fullmatch(r"\s*[\w.()\s]*\bstack_base\b[\w.()\s]*>=?\s*STACK_BUDGET\s*", cond) and \
+                not re.fullmatch(r"\s*\w+\s*>=?\s*STACK_BUDGET\s*", cond):
+            why.append("condition is not `<stack distance> > STACK_BUDGET`: %r" % cond.strip())
+    if "stack_base" not in b or not re.search(r"&\s*raw\s+const\s+\w+\s+as\s+usize|&\s*\w+\s+as\s+\*const", b):
+        why.append("no stack-pointer measurement against stack_base")
+    if not re.search(r"Ok\s*\(\s*\(\s*\)\s*\)\s*\}$", b):
+        why.append("does not end with Ok(())")
+    return (not why), ("probe ok" if not why else "; ".join(why))
+
+
+def stack_base_shape(by_qual):
+    """stack_base is assigned exactly once in the listed files: in run_inner, from the address of
+    a local, before the root block is executed."""
+    sites = [(q, m.start()) for q, f in by_qual.items() for m in re.finditer(r"\bstack_base\s*=[^=]", f.body)]
+    if len(sites) != 1 or sites[0][0] != "Runtime::run_inner":
+        return False, "stack_base assigned at %s" % ([q for q, _ in sites] or "no site")
+    body = by_qual["Runtime::run_inner"].body
+    first_exec = body.find("exec_block_with_flow")
+    if first_exec < 0 or sites[0][1] > first_exec:
+        return False, "stack_base recorded after the root block is entered"
+    if not re.search(r"stack_base\s*=\s*&\s*raw\s+const\s+\w+\s+as\s+usize", body):
+        return False, "stack_base is not the address of a local of run_inner"
+    return True, "base ok"
+
+
+ARRAY_ELEM = {"u8": 1, "i8": 1, "bool": 1, "u16": 2, "i16": 2, "u32": 4, "i32": 4, "f32": 4, "char": 4}
+# functions whose frames lie ABOVE the recorded stack base while a script runs
+ABOVE_BASE_FILES = ["src/bin/naija/main.rs", "src/bin/naija/cmd.rs"]
+ABOVE_BASE_RUNTIME = ["Runtime::run", "Runtime::run_with_analysis"]
+
+
+def const_env(txt, env):
+    env = dict(env)
+    pending = {m.group(1): m.group(2) for m in re.finditer(r"\bconst\s+([A-Z_][A-Z0-9_]*)\s*:\s*usize\s*=\s*([^;]+);", txt)}
+    for _ in range(len(pending) + 1):
+        for k, e in list(pending.items()):
+            e2 = re.sub(r"(?<=\d)_(?=\d)", "", e)
+            e2 = re.sub(r"(\d)(usize|u32|u64)\b", r"\1", e2)
+            try:
+                if re.fullmatch(r"[\w\s*+\-/()<]+", e2):
+                    env[k] = int(eval(e2.replace("/", "//"), {"__builtins__": {}}, env))
+                    del pending[k]
+            except Exception:
+                pass
+    return env
+
+
+def stack_arrays(by_qual_runtime):
+    """Array locals `[elem; N]` in the functions above the stack base: (function, bytes)."""
+    base_env = {"KIBI": 1024, "MEBI": 1024 * 1024, "GIBI": 1024 ** 3}
+    found = []
+
+    def scan(name, body, env):
+        for m in re.finditer(r"\[\s*([^\[\];]+?)\s*;\s*([^\[\]]+?)\s*\]", body):
+            elem, n = m.group(1), m.group(2)
+            n2 = re.sub(r"(?<=\d)_(?=\d)", "", n)
+            n2 = re.sub(r"(\d)(usize|u32|u64)\b", r"\1", n2)
+            if not re.fullmatch(r"[\w\s*+\-/()<]+", n2):
+                raise TranslatorError("array length %r in %s cannot be evaluated" % (n, name))
+            try:
+                count = int(eval(n2.replace("/", "//"), {"__builtins__": {}}, env))
+            except Exception:
+                raise TranslatorError("array length %r in %s cannot be evaluated" % (n, name))
+            sm = re.search(r"(u8|i8|bool|u16|i16|u32|i32|f32|char)\b", elem)
+            size = ARRAY_ELEM[sm.group(1)] if sm else 8
+            found.append((name, count * size))
+
+    for rel in ABOVE_BASE_FILES:
+        txt = remove_test_modules(strip_rust(read(rel)))
+        env = const_env(txt, base_env)
+        for f in parse_fns(rel, txt):
+            scan("%s:%s" % (os.path.basename(rel), f.qual), f.body, env)
+    rt = remove_test_modules(strip_rust(read("src/runtime.rs")))
+    env = const_env(rt, base_env)
+    for q in ABOVE_BASE_RUNTIME:
+        if q in by_qual_runtime:
+            scan(q, by_qual_runtime[q].body, env)
+    if "Runtime::run_inner" in by_qual_runtime:
+        scan("Runtime::run_inner", by_qual_runtime["Runtime::run_inner"].body, env)
+    return found
 
 
 def coq_ident(q):
@@ -439,6 +555,14 @@ def generate():
     A("")
     A("(* src/runtime.rs: STACK_BUDGET (non-wasm) *)")
     A("Definition stack_budget : Z := %d%%Z." % budget)
+    A("")
+    A("(* src/runtime.rs check_stack: one comparison of the stack distance with STACK_BUDGET, no other")
+    A("   early exit (%s); stack_base recorded once, at run_inner entry (%s) *)" % (PROBE_INFO["probe_why"], PROBE_INFO["base_why"]))
+    A("Definition probe_unconditional : bool := %s." % ("true" if PROBE_INFO["probe_ok"] else "false"))
+    A("Definition stack_base_at_run_entry : bool := %s." % ("true" if PROBE_INFO["base_ok"] else "false"))
+    A("(* array locals of the functions whose frames lie above the recorded stack base while a script")
+    A("   runs (src/bin/naija/main.rs, cmd.rs, Runtime::run and run_with_analysis): %s *)" % (", ".join("%s %d B" % a for a in PROBE_INFO["arrays"]) or "none"))
+    A("Definition above_base_array_bytes : Z := %d%%Z." % sum(b for _, b in PROBE_INFO["arrays"]))
     A("")
     A("(* function ids: file order, then impl type, then name *)")
     for f in fns:
@@ -470,7 +594,7 @@ def generate():
     A("(* evaluator call sites that pass an AST node which is not below the caller's node (user call) *)")
     A("Definition jump_edges : list (nat * nat) := [%s]." % "; ".join("(%s, %s)" % (coq_ident(a), coq_ident(b)) for a, b in jump))
     A("")
-    return "\n".join(L), {"ids": ids, "guards": guards, "structural": structural, "jump": jump, "budget": budget, "data": data,
+    return "\n".join(L), {"ids": ids, "guards": guards, "structural": structural, "jump": jump, "budget": budget, "data": data, "probe": {k: v for k, v in PROBE_INFO.items()},
                           "edges": {k: sorted(v) for k, v in edges.items()},
                           "groups": {f.qual: group_of(f) for f in fns}}
 
